@@ -267,7 +267,7 @@ func runC17(c *core.Ctx) core.Meta {
 				st3.Instances++
 				pv := prov.Of(s.Val)
 				// remaining = in-order filter of pendingReqs: a loop-carried slice that starts empty and is only ever extended by the current element
-				ok2 := regexp.MustCompile(`^iter\(\{@\|append\(@,\[recv\.pendingReqs\[[^\]]*\]\]\)\|make\(slice\)\}\)$`).MatchString(pv)
+				ok2 := core.ProvMatch(regexp.MustCompile(`^iter\(\{@\|append\(@,\[recv\.pendingReqs\[[^\]]*\]\]\)\|make\(slice\)\}\)$`), pv)
 				st3.Ob(ok2)
 				if !ok2 {
 					c.ReportAt("R17.3", fn, s.Pos(), "dispatch:pending-store", "after dispatching, the pending list is not replaced by the list of requests that could not be dispatched: "+short(pv))
@@ -281,7 +281,7 @@ func runC17(c *core.Ctx) core.Meta {
 	emptyDQ := CmpCut(func(n *core.Node, op token.Token, x, y ssa.Value) int {
 		px := prov.Of(x)
 		z, isZ := core.ConstInt(y)
-		if !regexp.MustCompile(`^len\(.*\.delayQueue\)$`).MatchString(px) || !isZ || z != 0 {
+		if !core.ProvMatch(regexp.MustCompile(`^len\(.*\.delayQueue\)$`), px) || !isZ || z != 0 {
 			return 0
 		}
 		switch op {
@@ -340,7 +340,7 @@ func runC17(c *core.Ctx) core.Meta {
 			st4.Instances++
 			c.MarkAnalysed(fn)
 			arg := prov.Of(core.CallOf(a.Instr).Args[0])
-			if regexp.MustCompile(`\.delayQueue\[`).MatchString(arg) {
+			if core.ProvMatch(regexp.MustCompile(`\.delayQueue\[`), arg) {
 				// draining the delay queue itself: must drain in order — element taken in increasing index and kept in order
 				st4.Ob(true)
 				st4.Sample("%s: pipeline.Accept(%s) drains the delay queue", core.FuncName(fn), arg)
@@ -378,7 +378,7 @@ func runC17(c *core.Ctx) core.Meta {
 		pv := prov.Of(s.Val)
 		base := prov.Of(s.Addr.(*ssa.FieldAddr).X)
 		ok2 := strings.HasPrefix(pv, "append("+base+".delayQueue,[") || // push back
-			regexp.MustCompile(`^iter\(\{@\|append\(@,\[.*\.delayQueue\[[^\]]*\]\]\)\|make\(slice\)\}\)$`).MatchString(pv) // in-order filter
+			core.ProvMatch(regexp.MustCompile(`^iter\(\{@\|append\(@,\[.*\.delayQueue\[[^\]]*\]\]\)\|make\(slice\)\}\)$`), pv) // in-order filter
 		st4.Ob(ok2)
 		st4.Sample("%s: delayQueue := %s", core.FuncName(fn), short(pv))
 		if !ok2 {
@@ -401,7 +401,7 @@ func runC17(c *core.Ctx) core.Meta {
 		if s, ok := storeToField(in, "bankPipelineItem.readData"); ok {
 			st5.Instances++
 			pv := prov.Of(s.Val)
-			ok2 := regexp.MustCompile(`^recv\.Storage\.Read\(.*` + item + `\.Address.*,.*` + item + `\.AccessByteSize\)$`).MatchString(pv)
+			ok2 := core.ProvMatch(regexp.MustCompile(`^recv\.Storage\.Read\(.*` + item + `\.Address.*,.*` + item + `\.AccessByteSize\)$`), pv)
 			st5.Ob(ok2)
 			st5.Sample("%s: readData = %s", core.FuncName(fn), short(pv))
 			if !ok2 {
@@ -412,7 +412,7 @@ func runC17(c *core.Ctx) core.Meta {
 			st5.Instances++
 			args := core.CallOf(in).Args
 			a := prov.Of(args[len(args)-2])
-			ok2 := regexp.MustCompile(item + `\.Address`).MatchString(a)
+			ok2 := core.ProvMatch(regexp.MustCompile(item + `\.Address`), a)
 			st5.Ob(ok2)
 			if !ok2 {
 				c.ReportAt("R17.5", fn, in.Pos(), "write:address", "a write is committed at "+short(a)+" rather than at the request's address")
